@@ -6,12 +6,14 @@
 //!        cmd                  a bare `Command` (typed `Request::resolve`, explicit poll / abort / drop)
 //! Every task announces its serial with a `Mark` notification right before each request it issues, so a
 //! request's issuing task is known although many requests carry equal operations.  One JSON line per case:
-//!   {"case","host","auto_poll","steps":[{"act","res","events","new"}]}
+//!   {"case","host","auto_poll","steps":[{"act","res","events","new","tok","exec"}]}
+//! tok = task futures of this case that still exist (drop counters on a value every task captures),
+//! exec = live tasks of the hosting executor (hook): Core executor / Command
 //! act    = ["run"] | ["resolve",seq,v] | ["ser",seq,v|-1] | ["ser_vacant"] | ["drop",seq] | ["poll"] | ["abort"] | ["dropall"]
 //! res    = 0 ok | 2,3,4 error codes | 9 panic
 //! events = continuation events [(serial, value)] of the step (ENDED = u64::MAX), stably sorted by serial
 //! new    = requests that appeared in the step, in arrival order: [owner serial, kind, limit(-1 = none)]
-//! usage: bridge_arity <seed> <cases> [max_steps]
+//! usage: bridge_arity <seed> <cases> [max_steps] [min_steps]
 #[path = "bridge_common/mod.rs"]
 mod common;
 use common::*;
@@ -95,14 +97,16 @@ fn view_diff(before: &ViewModel, after: &ViewModel) -> Vec<(u32, u64)> {
 // ------------------------------------------------------------------ typed Core host
 fn run_core<A: TwinApp>(rng: &mut Rng, case: usize, max_steps: u64, host: &str) -> Value
 where A::Capabilities: crux_core::WithContext<Event, A::Effect> {
+    enter_sys(3);
+    let tok0 = tokens_live(3);
     let core: Core<A> = Core::new();
     let mut book = Book::default();
     let mut held: Vec<Option<Held>> = vec![];
-    let mut steps = vec![];
+    let mut steps: Vec<Value> = vec![];
     let note_all = |effs: Vec<A::Effect>, book: &mut Book, held: &mut Vec<Option<Held>>| -> Vec<Value> {
         effs.into_iter().map(|e| { let h = A::hold(e); let r = book.note(h.variant(), h.payload()); held.push(Some(h)); r }).collect()
     };
-    for step in 0..rng.range(4, max_steps) {
+    for step in 0..rng.range(min_steps().min(max_steps), max_steps) {
         let before = core.view();
         let live = book.resolvable();
         let roll = rng.below(100);
@@ -112,6 +116,7 @@ where A::Capabilities: crux_core::WithContext<Event, A::Effect> {
             let effs = core.process_event(Event::Run(script));
             let new = note_all(effs, &mut book, &mut held);
             steps.push(json!({"act": ["run"], "res": 0, "events": sorted_events(view_diff(&before, &core.view())), "new": new}));
+            stamp(&mut steps, tokens_live(3) - tok0, core.verif_executor_tasks() as i64);
         } else if roll < 22 && !live.is_empty() {
             let k = *rng.pick(&live);
             held[k] = None; book.dropped[k] = true;
@@ -119,6 +124,7 @@ where A::Capabilities: crux_core::WithContext<Event, A::Effect> {
             let effs = core.process_event(Event::Run(vec![]));
             let new = note_all(effs, &mut book, &mut held);
             steps.push(json!({"act": ["drop", k], "res": 0, "events": sorted_events(view_diff(&before, &core.view())), "new": new}));
+            stamp(&mut steps, tokens_live(3) - tok0, core.verif_executor_tasks() as i64);
         } else {
             // any request the shell still holds: outstanding (mostly), already answered, notifications
             let pool = if roll < 80 && !live.is_empty() { live } else { book.all() };
@@ -133,15 +139,23 @@ where A::Capabilities: crux_core::WithContext<Event, A::Effect> {
                 Err(_) => (9, vec![]),
             };
             steps.push(json!({"act": ["resolve", k, v], "res": res, "events": sorted_events(view_diff(&before, &core.view())), "new": new}));
+            stamp(&mut steps, tokens_live(3) - tok0, core.verif_executor_tasks() as i64);
         }
     }
     json!({"case": case, "host": host, "auto_poll": true, "steps": steps})
+}
+
+/// add the release observations to the step just recorded
+fn stamp(steps: &mut Vec<Value>, tok: i64, exec: i64) {
+    if let Some(Value::Object(m)) = steps.last_mut() { m.insert("tok".into(), json!(tok)); m.insert("exec".into(), json!(exec)); }
 }
 
 // ------------------------------------------------------------------ serialized host
 fn run_bridge<A: TwinApp>(rng: &mut Rng, case: usize, max_steps: u64, host: &str, codec: Codec) -> Value
 where A::Capabilities: crux_core::WithContext<Event, A::Effect>,
       <A::Effect as crux_core::Effect>::Ffi: DeserializeOwned {
+    enter_sys(3);
+    let tok0 = tokens_live(3);
     let bin; let js;
     let face: &dyn Face = match codec {
         Codec::Bincode => { bin = BinFace::<A>(Bridge::new(Core::new())); &bin }
@@ -150,7 +164,7 @@ where A::Capabilities: crux_core::WithContext<Event, A::Effect>,
     let mut book = Book::default();
     let mut ids: Vec<u32> = vec![];
     let mut owner: HashMap<u32, usize> = HashMap::new();
-    let mut steps = vec![];
+    let mut steps: Vec<Value> = vec![];
     let view = |face: &dyn Face| -> ViewModel { match guarded(|| face.view()) { BOut::Ok(b) => dec::<ViewModel>(codec, &b).unwrap(), _ => panic!("view failed") } };
     let mut absorb = |out: BOut, book: &mut Book, ids: &mut Vec<u32>, owner: &mut HashMap<u32, usize>| -> (i64, Vec<Value>) {
         match out {
@@ -163,7 +177,7 @@ where A::Capabilities: crux_core::WithContext<Event, A::Effect>,
             BOut::Panic => (9, vec![]),
         }
     };
-    for step in 0..rng.range(4, max_steps) {
+    for step in 0..rng.range(min_steps().min(max_steps), max_steps) {
         let before = view(face);
         let live = book.resolvable();
         let roll = rng.below(100);
@@ -173,6 +187,7 @@ where A::Capabilities: crux_core::WithContext<Event, A::Effect>,
             let out = guarded(|| face.event(&enc(codec, &Event::Run(script.clone()))));
             let (res, new) = absorb(out, &mut book, &mut ids, &mut owner);
             steps.push(json!({"act": ["run"], "res": res, "events": sorted_events(view_diff(&before, &view(face))), "new": new}));
+            stamp(&mut steps, tokens_live(3) - tok0, face.exec() as i64);
         } else {
             let pool = if roll < 75 && !live.is_empty() { live } else { book.all() };
             if pool.is_empty() { continue; }
@@ -193,6 +208,7 @@ where A::Capabilities: crux_core::WithContext<Event, A::Effect>,
             };
             let (res, new) = absorb(out, &mut book, &mut ids, &mut owner);
             steps.push(json!({"act": act, "res": res, "events": sorted_events(view_diff(&before, &view(face))), "new": new}));
+            stamp(&mut steps, tokens_live(3) - tok0, face.exec() as i64);
         }
     }
     json!({"case": case, "host": host, "auto_poll": true, "steps": steps})
@@ -201,6 +217,8 @@ where A::Capabilities: crux_core::WithContext<Event, A::Effect>,
 // ------------------------------------------------------------------ bare Command host
 fn run_cmd(rng: &mut Rng, case: usize, max_steps: u64) -> Value {
     use new_app::{act_command, Effect, NewApp};
+    enter_sys(3);
+    let tok0 = tokens_live(3);
     let mut book = Book::default();
     let script = gen_script(rng, 7);
     book.run(&script);
@@ -208,7 +226,7 @@ fn run_cmd(rng: &mut Rng, case: usize, max_steps: u64) -> Value {
         Some(Command::all(script.iter().cloned().enumerate().map(|(k, a)| act_command(a, k as u32))));
     let handle = cmd.as_ref().unwrap().abort_handle();
     let mut held: Vec<Option<Held>> = vec![];
-    let mut steps = vec![];
+    let mut steps: Vec<Value> = vec![];
     let mut poll = |cmd: &mut Option<Command<Effect, Event>>, book: &mut Book, held: &mut Vec<Option<Held>>| -> (Value, Vec<Value>) {
         match cmd.as_mut() {
             None => (json!([]), vec![]),
@@ -228,7 +246,8 @@ fn run_cmd(rng: &mut Rng, case: usize, max_steps: u64) -> Value {
     };
     let (ev0, new0) = poll(&mut cmd, &mut book, &mut held);
     steps.push(json!({"act": ["poll"], "res": 0, "events": ev0, "new": new0}));
-    for _ in 0..rng.range(4, max_steps) {
+            stamp(&mut steps, tokens_live(3) - tok0, cmd.as_ref().map(|c| c.verif_live_tasks() as i64).unwrap_or(0));
+    for _ in 0..rng.range(min_steps().min(max_steps), max_steps) {
         let live = book.resolvable();
         let roll = rng.below(100);
         if roll < 45 {
@@ -243,23 +262,30 @@ fn run_cmd(rng: &mut Rng, case: usize, max_steps: u64) -> Value {
             };
             let code = match res { Ok(()) => 0, Err(crux_core::ResolveError::Never) => 3, Err(crux_core::ResolveError::FinishedMany) => 4 };
             steps.push(json!({"act": ["resolve", k, v], "res": code, "events": [], "new": []}));
+            stamp(&mut steps, tokens_live(3) - tok0, cmd.as_ref().map(|c| c.verif_live_tasks() as i64).unwrap_or(0));
         } else if roll < 80 {
             let (ev, new) = poll(&mut cmd, &mut book, &mut held);
             steps.push(json!({"act": ["poll"], "res": 0, "events": ev, "new": new}));
+            stamp(&mut steps, tokens_live(3) - tok0, cmd.as_ref().map(|c| c.verif_live_tasks() as i64).unwrap_or(0));
         } else if roll < 88 && !live.is_empty() {
             let k = *rng.pick(&live);
             held[k] = None; book.dropped[k] = true;
             steps.push(json!({"act": ["drop", k], "res": 0, "events": [], "new": []}));
+            stamp(&mut steps, tokens_live(3) - tok0, cmd.as_ref().map(|c| c.verif_live_tasks() as i64).unwrap_or(0));
         } else if roll < 94 {
             handle.abort();
             steps.push(json!({"act": ["abort"], "res": 0, "events": [], "new": []}));
+            stamp(&mut steps, tokens_live(3) - tok0, cmd.as_ref().map(|c| c.verif_live_tasks() as i64).unwrap_or(0));
         } else if cmd.is_some() {
             cmd = None;
             steps.push(json!({"act": ["dropall"], "res": 0, "events": [], "new": []}));
+            stamp(&mut steps, tokens_live(3) - tok0, cmd.as_ref().map(|c| c.verif_live_tasks() as i64).unwrap_or(0));
         }
     }
     json!({"case": case, "host": "cmd", "auto_poll": false, "steps": steps})
 }
+
+fn min_steps() -> u64 { std::env::args().nth(4).and_then(|s| s.parse().ok()).unwrap_or(4) }
 
 fn main() {
     let args: Vec<String> = std::env::args().collect();
